@@ -12,6 +12,9 @@ import (
 	"io"
 	"net"
 	"net/http"
+	"net/http/cookiejar"
+	"net/url"
+	"reflect"
 	"net/http/httptest"
 	"os"
 	"strconv"
@@ -63,6 +66,9 @@ type httpScenario struct {
 	HoldFirstUpload bool `json:"hold_first_upload,omitempty"`
 	// Backoff: the retry policy from failsafehttp.RetryPolicyBuilder is given a backoff delay (1 ms .. 4 ms) as well
 	Backoff bool `json:"backoff,omitempty"`
+	// Jar (via request only): the caller's http.Client has a cookie jar holding one cookie for the server, which the client
+	// adds to what it sends; every attempt must carry it exactly as a single plain client.Do would
+	Jar bool `json:"jar,omitempty"`
 }
 
 func bodyBytes(n int) []byte {
@@ -426,7 +432,14 @@ func runHTTP(sc httpScenario) (out httpOut) {
 		var resp *http.Response
 		var err error
 		if sc.Via == "request" {
-			resp, err = failsafehttp.NewRequestWithExecutor(req, &http.Client{Transport: inner}, ex).Do()
+			client := &http.Client{Transport: inner}
+			if sc.Jar {
+				client.Jar, _ = cookiejar.New(nil)
+				if u, uerr := url.Parse(srv.URL); uerr == nil {
+					client.Jar.SetCookies(u, []*http.Cookie{{Name: "sid", Value: "1"}})
+				}
+			}
+			resp, err = failsafehttp.NewRequestWithExecutor(req, client, ex).Do()
 		} else {
 			client := &http.Client{Transport: failsafehttp.NewRoundTripperWithExecutor(inner, ex)}
 			resp, err = client.Do(req)
@@ -480,6 +493,20 @@ func runHTTP(sc httpScenario) (out httpOut) {
 			}
 			if !found {
 				return fail("attempt-differs", "attempt %d lost the header %s: %s (got %v)", i+1, h[0], h[1], vals)
+			}
+			var want []string
+			for _, h2 := range sc.Headers {
+				if h2[0] == h[0] {
+					want = append(want, h2[1])
+				}
+			}
+			if !reflect.DeepEqual(vals, want) {
+				return fail("attempt-differs", "attempt %d carries the header %s as %q, the original request has %q", i+1, h[0], vals, want)
+			}
+		}
+		if sc.Jar && sc.Via == "request" {
+			if vals := rc.headers.Values("Cookie"); !reflect.DeepEqual(vals, []string{"sid=1"}) {
+				return fail("attempt-differs", "attempt %d carries the cookie header %q; a plain client with this cookie jar sends [\"sid=1\"]", i+1, vals)
 			}
 		}
 		early := i < len(sc.Server) && sc.Server[i].Mode == "early-response"
@@ -658,6 +685,7 @@ func genHTTP(t *rapid.T) httpScenario {
 	}
 	sc.MaxRetries = rapid.IntRange(0, 3).Draw(t, "maxRetries")
 	sc.Backoff = rapid.IntRange(0, 2).Draw(t, "backoff") == 0
+	sc.Jar = sc.Via == "request" && rapid.IntRange(0, 2).Draw(t, "jar") == 0
 	statuses := []int{200, 201, 204, 400, 404, 429, 500, 501, 502, 503, 511, 520, 599} // "5xx" has no upper end below 600
 	for i, n := 0, rapid.IntRange(1, 5).Draw(t, "nAttempts"); i < n; i++ {
 		a := attemptScript{Status: rapid.SampledFrom(statuses).Draw(t, "status")}
